@@ -13,14 +13,14 @@ from mc import docs
 from mc.kernel import Tally, case_alarm, chunked, fan_out, observed_warnings
 from mc.observe import compare_items, compare_outcome, exc_names, items_of, parse_one
 from mc.ref.interp import decode_packet
-from mc.spec import (BoolExpr, Cmp, Cond, Container, Doc, IntEnc, Or, Param, Poly, PType, HEADER_NAMES, header_entries, header_params,
+from mc.spec import (And, BoolExpr, Cmp, Cond, Container, Doc, IntEnc, Or, Param, Poly, PType, HEADER_NAMES, header_entries, header_params,
                      header_ptypes, load_doc, build_objects)
 
 PROP = "C05"
 LEVEL = "exploration"
 
 OTHER_NAMES = ("CCSDS_VER", "CCSDS_TYPE", "CCSDS_SHF", "APP_ID", "GRP_FLAGS", "SSC", "LENGTH")
-N_CRIT = 8
+N_CRIT = 9
 
 
 def criterion(k, apid):
@@ -34,6 +34,11 @@ def criterion(k, apid):
         None,                                           # BaseContainer without RestrictionCriteria
         # two-parameter condition whose selectors differ; CSEL is calibrated (2x), so raw and calibrated disagree
         (BoolExpr(Cond("SEL", "==", right_param="CSEL", left_cal=False, right_cal=True)),),
+        # nested groups: (APID != 3) AND (SEL == 1 OR SEL == 0 OR (APID == 2 AND SEL == 3)); true for most packets, so that it also sits above
+        # ambiguous and dead-end children (the error paths print the container and its criteria)
+        (BoolExpr(And((Cond(apid, "!=", right_value="3", right_cal=False),),
+                      (Or((Cond("SEL", "==", right_value="1", right_cal=False), Cond("SEL", "==", right_value="0", right_cal=False)),
+                          (And((Cond(apid, "==", right_value="2", right_cal=False), Cond("SEL", "==", right_value="3", right_cal=False))),)),))),),
     ][k]
 
 
@@ -217,6 +222,14 @@ def all_specs(tier):
                                     continue  # bound for the largest trees
                                 specs.append({"n": n, "parents": parents, "crits": crits, "abstract_bits": ab, "nest": nest,
                                               "children_first": cf, "other_names": other})
+    if tier == "quick":
+        # the four-container shapes that put two siblings under a mid-level container (ambiguity and dead ends below a container that was itself
+        # selected by criteria): every criterion for every edge; the full four-container space is in the thorough tier
+        for parents in ((0, 1, 1), (0, 0, 1)):
+            for crits in itertools.product(range(N_CRIT), repeat=3):
+                for ab in (0, 2, 3):
+                    specs.append({"n": 4, "parents": parents, "crits": crits, "abstract_bits": ab, "nest": 0, "children_first": bool(sum(crits) % 2),
+                                  "other_names": False})
     # a differently named root passed as root_container_name
     for ab in range(4):
         specs.append({"n": 2, "parents": (0,), "crits": (0,), "abstract_bits": ab, "nest": 0, "children_first": False,
@@ -233,8 +246,8 @@ def run(ctx):
     coverage = {
         "programs": tally.programs,
         "exhaustive": True,
-        "bound": (f"all parent vectors with <= {3 if ctx.quick else 4} containers x 8 criteria per child edge (APID==1, APID==2, APID!=1, SEL<2, two-comparison list, "
-                  "boolean expression, no RestrictionCriteria, two-parameter condition with mixed raw/calibrated selectors) x abstract flag per node x nesting {none, shared nested container referenced from two nodes, nested "
+        "bound": (f"all parent vectors with <= {3 if ctx.quick else 4} containers x 9 criteria per child edge (APID==1, APID==2, APID!=1, SEL<2, two-comparison list, "
+                  "boolean expression, no RestrictionCriteria, two-parameter condition with mixed raw/calibrated selectors, nested AND/OR groups) x abstract flag per node x nesting {none, shared nested container referenced from two nodes, nested "
                   "inside the root} x document order {parents first, children first} x header naming {conventional, other}; packets APID 0..3 x SEL 0..3; "
                   "parse_ccsds_packet and the generator with and without error reporting; every 11th document also built from objects"),
         "rule": "one evaluation = one packet through one API; distinct non-trivial = documents whose 16 packets reached >= 2 outcome classes",
